@@ -27,7 +27,7 @@ func VerifH_C03_tcp() {
 		r.DstSubnet = c03Subnet()
 	}
 	if tgt&2 != 0 {
-		r.Ports = []*scan.PortRange{{StartPort: 22, EndPort: 22}, {StartPort: 80, EndPort: 90}}
+		r.Ports = []*scan.PortRange{{StartPort: 22, EndPort: 22}, {StartPort: 80, EndPort: 80}, {StartPort: 80, EndPort: 90}, {StartPort: 88, EndPort: 95}}
 	}
 	res := &c06Results{}
 	var sm *ScanMethod
@@ -73,7 +73,7 @@ func VerifH_C03_tcp() {
 		src := b[off+12 : off+16]
 		sport := uint16(b[t])<<8 | uint16(b[t+1])
 		inNet := tgt&1 == 0 || (src[0] == 192 && src[1] == 168 && src[2] == 0)
-		inPorts := tgt&2 == 0 || sport == 22 || (sport >= 80 && sport <= 90)
+		inPorts := tgt&2 == 0 || sport == 22 || (sport >= 80 && sport <= 95)
 		flagsOK := !syn || b[t+13] == 0x12
 		shape = inNet && inPorts && flagsOK
 		if passR {
